@@ -57,6 +57,27 @@ func (ec earlyCloser) Token() (xml.Token, error) {
 	return tok, err
 }
 
+// stickyReader is a token reader that keeps returning the first error it
+// encountered. It is used while an element is being handled so that a stream
+// level error (a stream error sent by the peer, a comment, processing
+// instruction or directive, a stream restart, malformed XML, ...) still ends
+// the session when the handler ignores the error returned by Token.
+type stickyReader struct {
+	r   xml.TokenReader
+	err error
+}
+
+func (sr *stickyReader) Token() (xml.Token, error) {
+	if sr.err != nil {
+		return nil, sr.err
+	}
+	tok, err := sr.r.Token()
+	if err != nil {
+		sr.err = err
+	}
+	return tok, err
+}
+
 // deferWriter is a token writer that only takes out a lock on the session
 // writer if EncodeToken is actually called. It is passed into handlers to defer
 // taking out the lock as late as possible (or not at all if the handler only
@@ -548,7 +569,7 @@ func handleInputStream(s *Session, handler Handler) (err error) {
 	rc := s.TokenReader()
 	/* #nosec */
 	defer rc.Close()
-	r := intstream.Reader(rc, s.ws)
+	r := &stickyReader{r: intstream.Reader(rc, s.ws)}
 
 	tok, err := r.Token()
 	if err != nil {
